@@ -787,10 +787,11 @@ func primBase(p sysl.Type_Primitive) string {
 }
 
 type modelView struct {
-	doc   *ioDoc
-	app   *sysl.Application
-	sqlFK bool // a reference to a column of a table counts as a reference to the table
-	depth int
+	doc        *ioDoc
+	app        *sysl.Application
+	sqlFK      bool // a reference to a column of a table counts as a reference to the table
+	protoNames bool
+	depth      int
 }
 
 // base returns (base, array, optional) of a model type; a reference to a type that the document does not name is "inline:<type>"
@@ -899,7 +900,8 @@ func fieldDefs(t *sysl.Type) map[string]*sysl.Type {
 func (v *modelView) fields(fs *factSet, owner string, defs map[string]*sysl.Type, depth int) {
 	for fname, ft := range defs {
 		name := fname
-		if jt := attrStr(ft, "json_tag"); jt != "" {
+		// (Protocol Buffers: json_tag is the JSON spelling of the field, not its name)
+		if jt := attrStr(ft, "json_tag"); jt != "" && !v.protoNames {
 			name = jt
 		} else if n := attrStr(ft, "name"); n != "" {
 			name = n // the SQL importer renames a column that is a Sysl keyword and keeps the original here
@@ -1399,7 +1401,7 @@ func interopImport(w *tr.Writer, sc *ioScenario, logger *logrus.Logger) {
 		stage(w, sc, "observe", fmt.Errorf("no application %s in the compiled output", ioApp), tr.Ev{"facts": [][]string{}})
 		return
 	}
-	v := &modelView{doc: &sc.Doc, app: app, sqlFK: sc.Fmt == "spanner" || sc.Fmt == "postgres" || sc.Fmt == "mysql"}
+	v := &modelView{doc: &sc.Doc, app: app, sqlFK: sc.Fmt == "spanner" || sc.Fmt == "postgres" || sc.Fmt == "mysql", protoNames: sc.Fmt == "proto"}
 	stage(w, sc, "observe", nil, tr.Ev{"facts": v.facts()})
 	if sc.Via == "stmt" || sc.NoAgain {
 		return
